@@ -69,6 +69,8 @@ type Engine struct {
 	SpecFallback func(e *Engine, env *SpecEnv, x *spec.Call) (Val, bool, error)
 	Axioms       []smt.T // instantiated global axioms (from //@ axiom and string literals)
 	Errors       []string
+	// UsedContracts: contracts applied at call sites (the callers were checked against these, not against bodies)
+	UsedContracts map[string]bool
 
 	fresh         int
 	litSig        *types.Signature            // signature of the function literal being executed
